@@ -464,14 +464,23 @@ def param_ids(f):
     return out
 
 
+def _simple_const(e, d=0):
+    e = peel(e)
+    if e.get("k") == "lit":
+        return True
+    if e.get("k") == "ctor" and d < 3:
+        return all(_simple_const(a, d + 1) for a in e.get("args", []))
+    return False
+
+
 def resolve(n, depth=6):
     """n with reference/deref sugar peeled and immutable single-binding locals replaced by their initialiser"""
     n = peel(n)
     while depth > 0:
         if n.get("k") == "local" and n["id"] in LET_INITS:
             n = peel(LET_INITS[n["id"]])
-        elif n.get("k") == "def" and n.get("path") in CONSTS and peel(CONSTS[n["path"]]).get("k") == "lit":
-            n = peel(CONSTS[n["path"]])      # a named scalar constant
+        elif n.get("k") == "def" and n.get("path") in CONSTS and _simple_const(peel(CONSTS[n["path"]])):
+            n = peel(CONSTS[n["path"]])      # a named constant: a literal or a constructor over literals
         else:
             break
         depth -= 1
